@@ -1,6 +1,6 @@
 (* C16 (extension 3): the reactor code the hand-written models mirror still has the shape it had when they were written.
    Gen.ReactorShape is regenerated from /repo on every run (tools/gen_reactorshape.py); the constants below were recorded by
-   hand from /repo at commit 55af6a9, the source coq/model/Reactor.v, ReactorStage.v and ReactorQueue.v were written against.
+   hand from /repo at commit 55af6a9, the source coq/model/Reactor.v, ReactorStage.v, ReactorQueue.v and ReactorPrepared.v were written against.
    When one of the two lemmas stops compiling, a mirrored function was edited: re-inspect the model against the new source,
    then record the new constants. *)
 From Coq Require Import ZArith List String.
@@ -16,6 +16,7 @@ Definition expected_shape_table : list (string * Z) :=
    ("Reactor.__call__", 17463444003769514%Z);
    ("Reactor._single_stage", 13665352522956284%Z);
    ("fix_mapping_overlap", 1453804763258024%Z);
+   ("PreparedReactor.__call__", 3855836384029385%Z);
    ("Graph.remap", 47123173752924727%Z);
    ("Graph.union", 22971441314687905%Z)].
 
@@ -24,7 +25,8 @@ Definition expected_condition_table : list (string * list string) :=
    ("BaseReactor._patcher", ["isinstance(ra, AnyElement)"; "(m := mapping.get(n))"; "ra.stereo is not None"; "sa.stereo is not None"; "not (m := mapping.get(n))"; "isinstance(ra, Element)"; "ra.implicit_hydrogens"; "ra.stereo is not None"; "sa.stereo is not None"; "n in nbonds[m]"; "rb.stereo is not None"; "(sbn := sbonds.get(n)) is None or (sb := sbn.get(m)) is None or sb.stereo is None or (sb != b)"; "n not in patched_atoms and n not in to_delete"; "sa.stereo is not None"; "n in structure.stereogenic_tetrahedrons"; "n in to_delete"; "m in to_delete or (n in patched_atoms and m in patched_atoms)"; "n in nbonds[m]"; "b.stereo is not None"; "a.implicit_hydrogens is None"; "n in new.stereogenic_tetrahedrons"; "sbonds[n].keys() == nbonds[n].keys()"; "n in new.stereogenic_allenes"; "set(new.stereogenic_allenes[n]) == set(structure.stereogenic_allenes[n])"; "(n12 := new._stereo_cis_trans_terminals.get(n, True)) != new._stereo_cis_trans_terminals.get(m, False)"; "set(n12) != set(s12)"; "set(new.stereogenic_cis_trans[n12]) == set((env := structure.stereogenic_cis_trans[s12]))"; "self._fix_rings"; "not new.thiele(fix_tautomers=self._fix_tautomers)"]);
    ("Reactor.__call__", ["any((not isinstance(structure, MoleculeContainer) for structure in structures))"; "self._one_shot"; "len(new) > 1"; "str(r) in seen"; "queue"; "len(new) > 1"; "str(r) in seen"; "len(r.products) != len(ignored) + len(self._products_atoms)"; "str(r) in seen"; "depth < self._polymerise_limit"; "len_patterns == 1"]);
    ("Reactor._single_stage", ["united_chosen is None"; "collision"; "split"]);
-   ("fix_mapping_overlap", ["len(structures) == 1"; "intersection"])].
+   ("fix_mapping_overlap", ["len(structures) == 1"; "intersection"]);
+   ("PreparedReactor.__call__", ["not molecules"; "check_alerts and any((a < m for a, m in product(self.global_alerts, molecules)))"; "one_shot"; "check_alerts and any((a < m for a, m in product(al, molecules)))"; "str(r) in seen"; "excess is None"; "check_alerts and any((a < m for a, m in product(al, molecules)))"; "stack"; "str(r) in seen"; "excess is not molecules"])].
 
 Lemma reactor_shape_unchanged : shape_table = expected_shape_table.
 Proof. reflexivity. Qed.
